@@ -476,7 +476,7 @@ func runC16(w *W) {
 	scale := 1
 	ns := 160
 	if w.thorough() {
-		scale = 12
+		scale = 30
 		ns = 6000
 	}
 	w.editDocs(2500*scale, func(g string, doc []byte, kk int) {
